@@ -194,9 +194,16 @@ def check_shape(g, acc):
                 core.reset_store()
                 A = gtree.build(g)
                 C = A.copy()
+                C2 = A.copy()
                 target = node_at(C if side == "copy" else A, path)
                 edits.apply(target, lab)
                 n_pairs += 1
+                if side == "copy":
+                    # the untouched second copy still equals the untouched original
+                    q1, q2 = eq(A, C2), eq(C2, A)
+                    if q1 is not True or q2 is not True:
+                        acc.add_problem(problem("copy_not_equal", dict(case0, edit=lab, side="other copy", at=list(path)),
+                                                expected=True, observed=[q1, q2], edit=lab))
                 r1, r2 = eq(A, C), eq(C, A)
                 acc.outcome("edit:" + lab)
                 if r1 is not False or r2 is not False:
